@@ -89,6 +89,11 @@ class C06(Check):
                 pass
             if t > s:
                 branching += 1
+            if V and any(("unknown op" in x or "no stack effect known" in x or "bad opcode" in x) for x in V):
+                # the bytecode has an instruction the abstract machine does not know: the model is out of date, not a verdict on the code
+                v = Verdict(False, True, "model-outdated", "abstract machine cannot decode function %s: %s" % (fn["name"], V[0]))
+                v.extra["machinery"] = True
+                return v
             if V:
                 return Verdict(False, True, "contract", "function %s: %s" % (fn["name"], "; ".join(V[:3])), extra={"states": states, "transitions": trans, "functions": len(funs)})
         points = 0
